@@ -407,10 +407,26 @@ def expand_aliases(fn: ast.FunctionDef) -> ast.FunctionDef:
                     mapping[t.id] = v
                     drop.append(a)
                     break
-            # reverse alias: L = {} ; T = L
+            # reverse alias: L = <new object> ; ... ; T = L   (T an attribute/subscript path stored nowhere else): L is T from the start
             if isinstance(v, ast.Name) and stores.get(v.id) == 1 and v.id not in params_ and isinstance(t, (ast.Subscript, ast.Attribute)) and _is_path(t):
                 defs = [d for d in assigns if isinstance(d.targets[0], ast.Name) and d.targets[0].id == v.id]
-                if len(defs) == 1 and isinstance(defs[0].value, (ast.Dict, ast.List)) and not (defs[0].value.keys if isinstance(defs[0].value, ast.Dict) else defs[0].value.elts):
+                t_text = ast.unparse(t)
+                other_stores = [x for x in ast.walk(fn) if isinstance(x, (ast.Attribute, ast.Subscript)) and isinstance(x.ctx, ast.Store) and ast.unparse(x) == t_text and x is not t]
+                def _root(e):
+                    while isinstance(e, (ast.Attribute, ast.Subscript)):
+                        e = e.value
+                    return e.id if isinstance(e, ast.Name) else None
+                installs = [d for d in assigns if isinstance(d.value, ast.Name) and d.value.id == v.id and not isinstance(d.targets[0], ast.Name)
+                            and (_root(d.targets[0]) == "self" or _root(d.targets[0]) in params_)]
+                fresh_obj = len(defs) == 1 and (isinstance(defs[0].value, ast.Call) or (isinstance(defs[0].value, (ast.Dict, ast.List)) and not (
+                    defs[0].value.keys if isinstance(defs[0].value, ast.Dict) else defs[0].value.elts)))
+                root = t
+                while isinstance(root, (ast.Attribute, ast.Subscript)):
+                    root = root.value
+                rooted_at_self = isinstance(root, ast.Name) and (root.id == "self" or root.id in params_)
+                direct = [d for d in installs if isinstance(d.targets[0], ast.Attribute) and isinstance(d.targets[0].value, ast.Name)]
+                is_direct = isinstance(t, ast.Attribute) and isinstance(t.value, ast.Name)
+                if fresh_obj and not other_stores and rooted_at_self and ((len(installs) == 1) or (is_direct and len(direct) == 1)):
                     a.value = defs[0].value
                     path = _copy.deepcopy(t)
                     for x in ast.walk(path):
